@@ -88,6 +88,7 @@ def library():
     add("include", "self_dotdot", ["```{include} @@sub/../DOCNAME.md", "```"], files={"@@sub/x.txt": "x\n"})
     add("include", "cycle_dotdot", ["```{include} @@dir/@@cyc_b.txt", "```"],
         files={"@@dir/@@cyc_b.txt": "B\n\n```{include} ../@@cyc_c.txt\n```\n", "@@cyc_c.txt": "C\n\n```{include} @@dir/../@@dir/@@cyc_b.txt\n```\n"})
+    add("include", "negative_offset", ["```{include} @@chap.txt", ":heading-offset: -1", "```"], files={"@@chap.txt": "# Chapter\n\ntext\n\n## Sub\n"})
     add("include", "bad_option", ["```{include} @@ok.txt", ":start-line: x", "```"], files={"@@ok.txt": "ok\n"})
     add("include", "literal_missing", ["```{literalinclude} @@nosuch.py", "```"], front="sphinx")
     # inventories (docutils: myst_inventories)
